@@ -4,6 +4,6 @@ set -e
 cd "$(dirname "$0")/.."
 export CARGO_NET_OFFLINE=true
 if [ -f tools/translate.py ]; then python3 tools/translate.py; fi
-(cd lean && lake build FlacVerif fvdriver)
+(cd lean && lake build FlacVerif fvdriver fvconfig)
 (cd harness && cargo build --offline --release && cargo build --offline)
 echo "setup ok"
